@@ -424,6 +424,31 @@ pub fn c12(tier: Tier) -> Vec<Case> {
             }
         }
     }
+    // many parts in one sequence, each in redundant brackets of one kind (or none): what a rule denotes does not depend
+    // on how many bracketed parts stand next to each other (counts around 32, 64 and 256)
+    {
+        let counts: Vec<usize> = if tier == Tier::Quick { vec![1, 8, 31, 32, 33, 64, 65, 100] } else { vec![1, 2, 8, 15, 16, 17, 31, 32, 33, 63, 64, 65, 100, 127, 128, 129, 255, 256, 257] };
+        for n in counts {
+            for kind in ["plain", "group", "optional", "closure", "mixed"] {
+                let parts: Vec<Expr> = (0..n)
+                    .map(|i| {
+                        let l = lit("k");
+                        match (kind, i % 3) {
+                            ("plain", _) => l,
+                            ("group", _) | ("mixed", 0) => Expr::Group(Box::new(l)),
+                            ("optional", _) | ("mixed", 1) => opt(l),
+                            _ => star(l),
+                        }
+                    })
+                    .collect();
+                let mut v = parts;
+                v.push(Expr::Eoi);
+                let g = root_grammar(vec![Directive::Export, Directive::NoSkipWs], seq(v), &[]);
+                let inputs = InputSpec::List(vec!["k".repeat(n), "k".repeat(n.saturating_sub(1)), "k".repeat(n + 1), String::new()]);
+                add_if_wf(&mut b, "many-parts", g, &inputs);
+            }
+        }
+    }
     // box markers on some mentions of a field only (any marked mention boxes the field), in every order
     {
         let leaves = c02_leaves();
@@ -842,6 +867,48 @@ pub fn c04(tier: Tier) -> Vec<Case> {
             let spaces = InputSpec::Strings { alphabet: vec!['a', 'é', ' ', '\u{85}', '\u{a0}', '\u{2003}', '\u{2028}', '\u{3000}', '\u{feff}', '\u{800}', '\u{e01}', '\u{fff}'], max_len: len.min(3) };
             let both = InputSpec::Multi(vec![inputs.clone(), spaces]);
             add_if_wf(&mut b, if noskip { "utf8/no_skip_ws" } else { "utf8/skip" }, g, &both);
+        }
+    }
+    // @char classes made of every list of up to 2 (thorough 3) parts over literals and ranges whose bounds are ASCII,
+    // non-ASCII, or one of each (1-, 2-, 3- and 4-byte upper bounds), matched a bounded number of times so that a cursor
+    // left inside a multi-byte sequence is seen by the next part (`char`, a @string @position rule, `$`)
+    {
+        let parts: Vec<CharPart> = vec![
+            CharPart::Char(lc('a')),
+            CharPart::Char(lc('é')),
+            CharPart::Range(lc('a'), lc('k')),
+            CharPart::Range(lc('a'), lc('é')),
+            CharPart::Range(lc(' '), lc('\u{d7ff}')),
+            CharPart::Range(lc('i'), lc('\u{74a}')),
+            CharPart::Range(lc('é'), lc('香')),
+            CharPart::Range(lc('\u{0}'), lc('\u{10ffff}')),
+        ];
+        let maxn = if tier == Tier::Quick { 2 } else { 3 };
+        let mut lists: Vec<Vec<CharPart>> = vec![vec![]];
+        let mut all: Vec<Vec<CharPart>> = Vec::new();
+        for _ in 0..maxn {
+            let mut next = Vec::new();
+            for l in &lists {
+                for p in &parts {
+                    let mut n = l.clone();
+                    n.push(p.clone());
+                    next.push(n);
+                }
+            }
+            all.extend(next.iter().cloned());
+            lists = next;
+        }
+        let cinputs = InputSpec::Strings { alphabet: vec!['a', 'k', 'é', '©', '€', '香', '😀', '\u{74a}', ' '], max_len: 3 };
+        for l in all {
+            let cls = Rule::chr("Cls", l);
+            let s_rule = Rule::normal("S", vec![Directive::String, Directive::NoSkipWs, Directive::Position], seq(vec![rref("char"), opt(lit("é"))]));
+            for root in [
+                seq(vec![field("c", "Cls"), opt(field("s", "S")), opt(field("d", "Cls"))]),
+                seq(vec![opt(field("c", "Cls")), opt(field("d", "char")), Expr::Eoi]),
+            ] {
+                let g = root_grammar(vec![Directive::Export, Directive::Position, Directive::NoSkipWs], root, &[cls.clone(), s_rule.clone()]);
+                add_if_wf(&mut b, "utf8/classes", g, &cinputs);
+            }
         }
     }
     // long multi-byte inputs
